@@ -6,6 +6,8 @@ package main
 
 import (
 	"fmt"
+	"math/rand"
+	"os"
 	"strconv"
 	"strings"
 
@@ -73,6 +75,47 @@ func (s *sqlRun) joinQ(ts []*tableDef, on [][4]int, filt []joinFilt, proj [][2]i
 	s.emit(ev)
 }
 
+// pressureJoin joins two unindexed tables of ~300 rows with 300-byte payloads in a pool of 32 frames: whichever side the
+// join materialises (hash join build side: ~25 temporary pages) does not fit, so temporary pages are evicted and
+// fetched again while the join runs. Most keys have no partner on the other side, so the result stays small.
+func pressureJoin(tw *trace.Writer, rng *rand.Rand, sc int) error {
+	s, err := newRun(tw, ctxName("C11"), 128)
+	if err != nil {
+		return err
+	}
+	keyType := []string{"int", "varchar", "float"}[rng.Intn(3)]
+	ts := []*tableDef{}
+	for i := 0; i < 2; i++ {
+		t := &tableDef{name: fmt.Sprintf("m%d_%c", sc, 'a'+i), cols: []string{keyType, "varchar", "int"},
+			names: []string{"c0", "c1", fmt.Sprintf("%c2", 'p'+i)}, kinds: []string{"none", "none", "none"}}
+		s.createAPI(t)
+		lonely := NRanks - 2 + i // keys without a partner in the other table
+		for b := 0; b < 30 && !s.dead; b++ {
+			rows := [][]int{}
+			for j := 0; j < 10; j++ {
+				k := lonely
+				if rng.Intn(25) == 0 {
+					k = rng.Intn(4)
+				}
+				rows = append(rows, []int{k, NRanks - 1, rng.Intn(NRanks - 1)})
+			}
+			s.insert(t, rows, nil)
+		}
+		ts = append(ts, t)
+	}
+	if rng.Intn(2) == 0 {
+		s.stats()
+	}
+	on := [][4]int{{1, 0, 2, 0}}
+	s.joinQ(ts, on, nil, [][2]int{{1, 0}, {1, 1}, {2, 2}, {2, 1}}, false)
+	s.joinQ(ts, on, nil, [][2]int{{2, 1}, {1, 2}}, true)
+	s.joinQ(ts, on, []joinFilt{{1, 2, cmpOps[rng.Intn(6)], rng.Intn(NRanks - 1)}}, [][2]int{{2, 0}, {1, 1}, {1, 0}}, false)
+	for _, t := range ts {
+		s.scan(t)
+	}
+	return nil
+}
+
 // sql c11 <out.ndjson> <scenarios>
 func sqlC11(args []string) error {
 	tw, err := trace.New(args[0])
@@ -82,10 +125,19 @@ func sqlC11(args []string) error {
 	nscen, _ := strconv.Atoi(args[1])
 	for sc := envStart(); sc < nscen; sc++ {
 		rng := scenarioRng(sc)
+		if sc%5 == 4 && os.Getenv("VERIF_C11_NOPRESSURE") == "" {
+			if err := pressureJoin(tw, rng, sc); err != nil {
+				return err
+			}
+			continue
+		}
 		s, err := newRun(tw, ctxName("C11"), 1600)
 		if err != nil {
 			return err
 		}
+		// every third scenario gives all tables the same column names (c0, c1, ...): a column is then identified
+		// by its table only
+		sameNames := sc%3 == 1
 		nt := 2
 		if rng.Intn(3) == 0 {
 			nt = 3
@@ -101,7 +153,11 @@ func sqlC11(args []string) error {
 					ty = keyType
 				}
 				t.cols = append(t.cols, ty)
-				t.names = append(t.names, fmt.Sprintf("%c%d", 'p'+i, c))
+				if sameNames {
+					t.names = append(t.names, fmt.Sprintf("c%d", c))
+				} else {
+					t.names = append(t.names, fmt.Sprintf("%c%d", 'p'+i, c))
+				}
 			}
 			if rng.Intn(3) == 0 {
 				// unindexed columns (hash join / nested loop only) need the catalog API
@@ -147,6 +203,32 @@ func sqlC11(args []string) error {
 					s.delete(t, randAtom(rng, len(t.cols)))
 				}
 				s.scan(t)
+			}
+			if sameNames {
+				// select lists that name every column the query touches, table blocks in both orders and interleaved:
+				// position by position the bare column names agree with any plan's output, only the tables differ
+				on := [][4]int{{1, 0, 2, 0}}
+				if nt == 3 {
+					on = append(on, [4]int{2, 0, 3, 0})
+				}
+				k := len(ts[0].cols)
+				for _, t := range ts {
+					if len(t.cols) < k {
+						k = len(t.cols)
+					}
+				}
+				order := rng.Perm(nt)
+				fwd, rev, mix := [][2]int{}, [][2]int{}, [][2]int{}
+				for i := 0; i < nt; i++ {
+					for c := 0; c < k; c++ {
+						fwd = append(fwd, [2]int{i + 1, c})
+						rev = append(rev, [2]int{nt - i, c})
+						mix = append(mix, [2]int{(order[i]+c)%nt + 1, c})
+					}
+				}
+				s.joinQ(ts, on, nil, fwd, false)
+				s.joinQ(ts, on, nil, rev, rng.Intn(2) == 0)
+				s.joinQ(ts, on, nil, mix, rng.Intn(2) == 0)
 			}
 			for q := 0; q < 6; q++ {
 				on := [][4]int{{1, 0, 2, 0}}
